@@ -1038,6 +1038,33 @@ func (env *Env) evalBuiltinCall(name string, argsE []*Expr) (*Val, error, bool) 
 			return nil, err, true
 		}
 		return &Val{T: c.zero(t), Typ: t, ConstLen: -1}, nil, true
+	case "jsonDecode", "jsonDecodeErr":
+		sv, err := arg(0)
+		if err != nil {
+			return nil, err, true
+		}
+		t, err := env.res.resolveTypeSrc(argsE[1].TypeSrc)
+		if err != nil {
+			return nil, err, true
+		}
+		tid := c.typeID(t)
+		if name == "jsonDecode" {
+			fn := c.declFun(fmt.Sprintf("jsonDec$%d", tid), []string{sortStr}, c.sortOf(t))
+			return &Val{T: "(" + fn + " " + sv.T + ")", Typ: t, ConstLen: -1}, nil, true
+		}
+		fn := c.declFun(fmt.Sprintf("jsonErr$%d", tid), []string{sortStr}, sortIface)
+		return &Val{T: "(" + fn + " " + sv.T + ")", Typ: types.Universe.Lookup("error").Type(), ConstLen: -1}, nil, true
+	case "deref":
+		v, err := arg(0)
+		if err != nil {
+			return nil, err, true
+		}
+		pt, ok := v.Typ.Underlying().(*types.Pointer)
+		if !ok {
+			return nil, fmt.Errorf("deref of non-pointer"), true
+		}
+		a := &Addr{Base: v.T, CellT: pt.Elem()}
+		return &Val{T: e.load(env.st, a), Typ: pt.Elem(), ConstLen: -1}, nil, true
 	case "tok":
 		return &Val{T: env.st.tok, Typ: nil, ConstLen: -1}, nil, true
 	}
